@@ -1,5 +1,4 @@
-import PqV.Lemmas.Dremel
-import PqV.Impl.Assemble
+import PqV.Lemmas.Assemble
 /-!
 # C15 — LIST and MAP columns are assembled into the right per-row lists and dicts
 
@@ -27,7 +26,27 @@ theorem pages_compose (o : Nat) (p1 p2 : List Entry) :
 theorem chain_by_started_records_now : PqV.Gen.Nested.chainByZeros = true := by decide
 theorem map_key_by_leaf_name_now : PqV.Gen.Nested.keyByLeafName = true := by decide
 
+/-- **whole-row pages** (any number of pages, cut at row starts; both chaining rules): the model of
+    `read_col` + `_assemble_objects` stores exactly the rows, in order. -/
+theorem pages_of_whole_rows {o maxDef : Nat} {null : Bool} (h : Sch o maxDef null) (pages : List (List Row))
+    (hp : ∀ p ∈ pages, p ≠ [] ∧ ∀ r ∈ p, r.ok o maxDef = true) :
+    readChunk pages.flatten.length null maxDef (pages.map (pageOf o maxDef)) = .ok pages.flatten :=
+  readChunk_rows h pages hp
+
+/-- **pages cut anywhere — partial**: whenever every continuation that opens a page carries at
+    least one value (`PagesOk`), the model returns exactly record assembly of the whole entry
+    stream.  The excluded case is the known finding, `continuation_without_value_fails` below. -/
+theorem model_refines_assembly_partial {o maxDef : Nat} {null : Bool} (h : Sch o maxDef null) (pages : List Page)
+    (hok : PagesOk o maxDef [] pages) :
+    readChunk (newRows pages) null maxDef (pages.map (gpageOf o maxDef))
+      = .ok (assemble o (pages.flatMap (·.entries o maxDef))) :=
+  readChunk_refines_partial h chain_by_started_records_now pages hok
+
 /-! ### non-vacuity and the known kernel finding -/
+example : Sch 1 3 true := ⟨by decide, by decide, by decide⟩
+example : PagesOk 1 3 [] [⟨[], [Row.list [Cell.int 5, Cell.null]]⟩, ⟨[Cell.null, Cell.int 6], [Row.none, Row.list []]⟩] := by
+  refine ⟨Or.inl ⟨rfl, by simp⟩, by simp, by decide, Or.inr ⟨by decide, [], [Cell.int 5, Cell.null], by simp [joinPage, extendLast_nil]⟩, ?_, by decide, trivial⟩
+  intro c hc; intro hcn; decide
 example : ∀ r ∈ [Row.none, Row.list [], Row.list [Cell.int 1, Cell.null]], r.ok 1 3 = true := by decide
 example : assemble 1 (encodeRows 1 3 [Row.none, Row.list [], Row.list [Cell.int 1, Cell.null]])
     = [Row.none, Row.list [], Row.list [Cell.int 1, Cell.null]] := by decide
